@@ -16,11 +16,11 @@ namespace Tickit
 `self.wakeups` is a dict; the chosen components keep an entry until served; the task `new`
 completes only after an uncleared `set()`; the assertion has not failed; and while the loop
 waits on the event the flag says EXACTLY whether a wakeup exists. -/
-theorem loop_invariant (acts : List MLoopAct) : LoopInv (({} : MLoopSt).run true acts) :=
-  LoopInv.init.run acts
+theorem loop_invariant (acts : List MLoopAct) : MLoopInv (({} : MLoopSt).run true acts) :=
+  MLoopInv.init.run acts
 
-theorem loop_invariant_step (s s' : MLoopSt) (a : MLoopAct) (h : LoopInv s)
-    (hs : s.step true a = some s') : LoopInv s' :=
+theorem loop_invariant_step (s s' : MLoopSt) (a : MLoopAct) (h : MLoopInv s)
+    (hs : s.step true a = some s') : MLoopInv s' :=
   h.step hs
 
 /-- **L1** the repaired loop never reaches the failed assertion. -/
@@ -57,7 +57,7 @@ theorem loop_quiescent_iff (acts : List MLoopAct) :
         s.step true .newTaskRuns = none) ↔
       (s.pc = .waiting ∧ s.wake = [] ∧ s.flag = false) := by
   intro s
-  have hinv : LoopInv s := loop_invariant acts
+  have hinv : MLoopInv s := loop_invariant acts
   have hal := hinv.alive
   have hw := hinv.waitIff
   constructor
@@ -240,7 +240,7 @@ theorem new_loop_serves_fresh_set :
 theorem old_loop_dies : (({} : MLoopSt).run false f16History).pc = .dead := by decide
 
 /-- one step earlier the original loop waits with a stale flag: flag set, no wakeup —
-exactly what the invariant of the repaired loop (`LoopInv.waitIff`) excludes. -/
+exactly what the invariant of the repaired loop (`MLoopInv.waitIff`) excludes. -/
 theorem old_loop_stale_flag :
     ({} : MLoopSt).run false f16History.dropLast =
       { wake := [], flag := true, pc := .waiting, flagTaskDone := false } := by decide
